@@ -9,6 +9,7 @@ from checks import phys
 
 ID = 'C05'
 BUDGET = {'quick': 80, 'thorough': 6000}
+REACH_N = 6
 DET_K = 2
 WALL = {'quick': 150, 'thorough': 2400}
 CHUNK = 2
